@@ -9,15 +9,27 @@ from checks import spaces_common as sc
 PID = "C06"
 RULE = ("lattice: TLC enumerates every pair (and every triple of a thinned lattice) of integer-lattice states of "
         "R^n, SO(2) (multiples of pi/N), SO(3) (24 Hurwitz quaternions), time, discrete, torus, SE(2), SE(3), nested "
-        "weighted compounds and wrappers, with the exact expected distance; recorded: seeded adversarial triples "
-        "(seam-crossing, antipodal, near-antipodal, coincident, 1e-9 / 1e-12 apart, on the bounds, pivot) on all 29 "
-        "shipped spaces. A case is non-trivial when its class (computed by the model, resp. from the inputs) hits a "
+        "weighted compounds and wrappers, the empty space and space-time (R^n x time lattices of one unit, vMax 1 and 2: "
+        "unreachable / on the light cone / reachable), with the exact expected distance; recorded: seeded adversarial "
+        "triples (seam-crossing, antipodal, near-antipodal, coincident, 1e-9 / 1e-12 apart, on the bounds, pivot) on all "
+        "38 shipped spaces - among them Owen / Vana / VanaOwen (also level flight to a target a hair lower, little room "
+        "and much altitude), SpaceTime over R^2 and SE(2) as ordered pairs (also on and 1e-12 .. 1e-3 next to the light "
+        "cone), EmptyStateSpace, projected / atlas / tangent-bundle space over R^3 with the unit sphere (states on the "
+        "sphere). A case is non-trivial when its class (computed by the model, resp. from the inputs) hits a "
         "case split: coincident, antipodal, seam-crossing, +-pi / q=-q representative, at the extent or on a bound; "
         "distinct = distinct hash of (space, case).")
 ASSUMPTIONS = ["compound weights strictly positive", "states in bounds", "extent clause only for bounded time",
                "symmetry / triangle only where hasSymmetricDistance() / isMetricSpace() claim them",
                "positivity only between states the space calls unequal and further apart than the space's own "
                "resolution (logged per space: Dubins / Reeds-Shepp 2e-6, quaternion spaces 5e-5, float sphere 1e-4, else 0)",
+               "Owen / Vana / VanaOwen: the laws every space has (non-negative, finite, identity, positivity beyond the planar "
+               "Dubins resolution 2e-6, extent) and distance >= straight line between the positions; no symmetry, no "
+               "triangle inequality (neither is claimed)",
+               "SpaceTime: symmetric as documented ('direction independent'), infinite iff timeToCoverDistance exceeds the "
+               "time between the states (observations within float epsilon x 10 x time extent + 2e-6 of the boundary may "
+               "fall on either side), timeToCoverDistance x vMax = distance of the space component, a finite distance is "
+               "the weighted sum of the two component distances; no triangle inequality and no extent bound (infinite)",
+               "constrained spaces: laws of the wrapped R^3 (they delegate distance / equalStates / extent)",
                "tolerance (logged per space): 2e-6 for the micro-unit rounding, + float epsilon x extent for the "
                "float-precision sphere, + 4.5e-5 x weight for spaces containing SO(3) (its distance is 0 above "
                "|<p,q>| > 1 - 1e-9)"]
